@@ -33,10 +33,10 @@ LEVEL_NOTE = "trusts the Python references; says nothing about object kinds or s
 
 def runs(tier, seed):
     k = 1 if tier == "quick" else 40
-    return [Run("ser_obj", cases=14000 * k, timeout=3000),
-            Run("ser_malformed", cases=28000 * k, timeout=3000),
-            Run("compactsize", cases=400 * k, params={"batch": 64}, timeout=3000),
-            Run("textenc", cases=6000 * k, params={"batch": 16}, timeout=3000)]
+    return [Run("ser_obj", cases=7000 * k, timeout=3000),
+            Run("ser_malformed", cases=14000 * k, timeout=3000),
+            Run("compactsize", cases=200 * k, params={"batch": 64}, shards=4 if k == 1 else None, timeout=3000),
+            Run("textenc", cases=3200 * k, params={"batch": 16}, timeout=3000)]
 
 
 def hx(s):
